@@ -62,6 +62,7 @@ pub const STAGES: &[&str] = &[
     "charmap",                       // 20
     "GlyphStyles::new",              // 21
     "ift: patched font reparse",     // 22
+    "composite graph: draw",         // 23
 ];
 
 /// Called by drivers immediately before a call into the code under test.
@@ -264,64 +265,93 @@ const REPO_CRATES: &[&str] = &[
     "shared_brotli_patch_decoder::",
 ];
 
-/// First frame of a textual `std::backtrace::Backtrace` that belongs to a repository crate,
-/// normalised (no hash suffix, no closure suffix, no generic arguments).
-pub fn innermost_repo_fn(bt: &str) -> String {
+/// Normalise one symbol of a textual backtrace to `crate::module::function` if it belongs to a repository
+/// crate (no hash suffix, no closure suffix, no generic arguments).
+fn normalise_symbol(sym: &str) -> Option<String> {
+    let pos = REPO_CRATES.iter().filter_map(|c| sym.find(c)).min()?;
+    let s = &sym[pos..];
+    // strip generic arguments
+    let mut out = String::new();
+    let mut depth = 0;
+    for c in s.chars() {
+        match c {
+            '<' => depth += 1,
+            '>' => {
+                if depth > 0 {
+                    depth -= 1
+                }
+            }
+            _ if depth == 0 => out.push(c),
+            _ => {}
+        }
+    }
+    let mut s = out;
+    if let Some(p) = s.find(" as ") {
+        s.truncate(p);
+    }
+    while let Some(p) = s.rfind("::{{closure}}") {
+        s.truncate(p);
+    }
+    if let Some(p) = s.rfind("::h") {
+        if s[p + 3..].len() == 16 && s[p + 3..].chars().all(|c| c.is_ascii_hexdigit()) {
+            s.truncate(p);
+        }
+    }
+    Some(s.trim_end_matches(':').replace("::::", "::"))
+}
+
+/// Repository frames of a textual `std::backtrace::Backtrace`, outermost first.
+pub fn repo_frames(bt: &str) -> Vec<String> {
+    let mut v = vec![];
     for line in bt.lines() {
         let l = line.trim_start();
-        // frame lines look like "12: skrifa::outline::…::name" ; location lines start with "at "
+        // frame lines look like "12: skrifa::outline::…::name"; location lines start with "at "
         let Some((idx, sym)) = l.split_once(": ") else {
             continue;
         };
         if !idx.chars().all(|c| c.is_ascii_digit()) {
             continue;
         }
-        let sym = sym.trim();
-        // "<skrifa::x::T as core::…>::f" forms: look for a crate prefix anywhere
-        let hit = REPO_CRATES.iter().filter_map(|c| sym.find(c)).min();
-        let Some(pos) = hit else { continue };
-        let mut s = sym[pos..].to_string();
-        // strip generic arguments
-        let mut out = String::new();
-        let mut depth = 0;
-        for c in s.chars() {
-            match c {
-                '<' => depth += 1,
-                '>' => {
-                    if depth > 0 {
-                        depth -= 1
-                    }
-                }
-                _ if depth == 0 => out.push(c),
-                _ => {}
-            }
+        if let Some(s) = normalise_symbol(sym.trim()) {
+            v.push(s);
         }
-        s = out;
-        if let Some(p) = s.find(" as ") {
-            s.truncate(p);
-        }
-        while let Some(p) = s.rfind("::{{closure}}") {
-            s.truncate(p);
-        }
-        if let Some(p) = s.rfind("::h") {
-            if s[p + 3..].len() == 16 && s[p + 3..].chars().all(|c| c.is_ascii_hexdigit()) {
-                s.truncate(p);
-            }
-        }
-        let s = s.trim_end_matches(':').replace("::::", "::");
-        return s;
     }
-    String::new()
+    v.reverse();
+    v
 }
+
+/// The function a stall is attributed to: the deepest repository frame common to all stack samples
+/// (taken a few tens of ms apart) — i.e. the function whose loop does not terminate, not whichever
+/// short-lived callee a single sample happens to land in.
+pub fn deepest_common_frame(samples: &[Vec<String>]) -> String {
+    let Some(first) = samples.first() else {
+        return String::new();
+    };
+    let mut n = first.len();
+    for s in &samples[1..] {
+        let mut k = 0;
+        while k < n && k < s.len() && s[k] == first[k] {
+            k += 1;
+        }
+        n = k;
+    }
+    if n == 0 {
+        String::new()
+    } else {
+        first[n - 1].clone()
+    }
+}
+
+static SAMPLES: Mutex<Vec<Vec<String>>> = Mutex::new(Vec::new());
 
 extern "C" fn on_usr1(_: libc::c_int) {
     // The stalled thread is interrupted here. Capturing a backtrace is not async-signal-safe, but the
     // process is about to be killed anyway; the monitor thread exits the process if this wedges.
     let bt = std::backtrace::Backtrace::force_capture().to_string();
-    let f = innermost_repo_fn(&bt);
-    let line = format!("B {}\n", if f.is_empty() { "?" } else { &f });
-    raw_write(line.as_bytes());
-    unsafe { libc::_exit(3) }
+    let frames = repo_frames(&bt);
+    if let Ok(mut g) = SAMPLES.try_lock() {
+        g.push(frames);
+    }
 }
 
 extern "C" fn on_abrt(_: libc::c_int) {
@@ -354,11 +384,20 @@ fn monitor(watchdog_ms: u64) {
         stalled_ms += step;
         if stalled_ms >= watchdog_ms {
             raw_marker(b'U');
-            unsafe {
-                libc::pthread_kill(MAIN_THREAD.load(Ordering::Relaxed) as libc::pthread_t, libc::SIGUSR1);
+            // five stack samples of the stalled thread, 25 ms of execution apart
+            let t0 = std::time::Instant::now();
+            for k in 0..5 {
+                unsafe {
+                    libc::pthread_kill(MAIN_THREAD.load(Ordering::Relaxed) as libc::pthread_t, libc::SIGUSR1);
+                }
+                while SAMPLES.lock().map(|g| g.len()).unwrap_or(0) <= k && t0.elapsed().as_millis() < 4000 {
+                    std::thread::sleep(Duration::from_millis(5));
+                }
+                std::thread::sleep(Duration::from_millis(25));
             }
-            std::thread::sleep(Duration::from_millis(4000));
-            raw_write(b"B ?\n");
+            let f = SAMPLES.lock().map(|g| deepest_common_frame(&g)).unwrap_or_default();
+            let line = format!("B {}\n", if f.is_empty() { "?" } else { &f });
+            raw_write(line.as_bytes());
             unsafe { libc::_exit(3) }
         }
     }
@@ -471,6 +510,7 @@ struct Kid {
     stdin: ChildStdin,
     rx: Receiver<String>,
     stderr_tail: Arc<Mutex<VecDeque<String>>>,
+    stderr_reader: Option<std::thread::JoinHandle<()>>,
 }
 
 fn spawn_kid(opts: &SupOpts) -> Result<Kid, String> {
@@ -498,7 +538,7 @@ fn spawn_kid(opts: &SupOpts) -> Result<Kid, String> {
     });
     let stderr_tail = Arc::new(Mutex::new(VecDeque::new()));
     let tail = stderr_tail.clone();
-    std::thread::spawn(move || {
+    let stderr_reader = std::thread::spawn(move || {
         for l in BufReader::new(stderr).lines() {
             let Ok(l) = l else { break };
             let mut g = tail.lock().unwrap();
@@ -513,6 +553,7 @@ fn spawn_kid(opts: &SupOpts) -> Result<Kid, String> {
         stdin,
         rx,
         stderr_tail,
+        stderr_reader: Some(stderr_reader),
     })
 }
 
@@ -521,7 +562,9 @@ fn reap(mut kid: Kid, kill: bool) -> String {
         let _ = kid.proc.kill();
     }
     let status = kid.proc.wait();
-    std::thread::sleep(Duration::from_millis(20)); // let the stderr reader drain
+    if let Some(h) = kid.stderr_reader.take() {
+        let _ = h.join(); // the child is dead, so its stderr reaches EOF: the tail is complete
+    }
     let tail: Vec<String> = kid.stderr_tail.lock().unwrap().iter().cloned().collect();
     let st = match status {
         Ok(s) => {
@@ -538,12 +581,26 @@ fn reap(mut kid: Kid, kill: bool) -> String {
 }
 
 /// Run cases 0..n through worker processes. `get(i)` renders case i as one-line JSON; `on(i, outcome)` is
-/// called (from supervisor threads, serialise inside) exactly once per case. Err = machinery error.
+/// called (from supervisor threads, serialise inside) once per case — and once more for every follow-up
+/// case that `resume(i, case_json, &failure)` returns after a worker failure (batch drivers continue after
+/// the sub-case that killed the worker; at most `MAX_RESUMES` times per case). Err = machinery error.
 pub fn supervise(
     n: u64,
     get: &(dyn Fn(u64) -> String + Sync),
     opts: &SupOpts,
     on: &(dyn Fn(u64, Outcome) + Sync),
+) -> Result<SupStats, String> {
+    supervise_resumable(n, get, opts, on, &|_, _, _| None)
+}
+
+pub const MAX_RESUMES: u32 = 64;
+
+pub fn supervise_resumable(
+    n: u64,
+    get: &(dyn Fn(u64) -> String + Sync),
+    opts: &SupOpts,
+    on: &(dyn Fn(u64, Outcome) + Sync),
+    resume: &(dyn Fn(u64, &str, &Failure) -> Option<String> + Sync),
 ) -> Result<SupStats, String> {
     let next = AtomicU64::new(0);
     let stats = Mutex::new(SupStats::default());
@@ -581,8 +638,24 @@ pub fn supervise(
                                 }
                             }
                         }
+                        let mut case_json = get(i);
+                        let mut resumes = 0u32;
+                        loop {
+                        // (re)spawn lazily: after a failure the follow-up case needs a fresh worker
+                        if kid.is_none() {
+                            match spawn_kid(opts) {
+                                Ok(k) => {
+                                    kid = Some(k);
+                                    stats.lock().unwrap().respawns += 1;
+                                }
+                                Err(e) => {
+                                    fail(e);
+                                    break 'outer;
+                                }
+                            }
+                        }
                         let k = kid.as_mut().unwrap();
-                        let line = format!("C {} {}\n", i, get(i));
+                        let line = format!("C {} {}\n", i, case_json);
                         let sent = k.stdin.write_all(line.as_bytes()).and_then(|_| k.stdin.flush());
                         let mut started = false;
                         let mut f = Failure::default();
@@ -649,7 +722,7 @@ pub fn supervise(
                             early_deaths = 0;
                             stats.lock().unwrap().cases += 1;
                             on(i, Outcome::Done(out));
-                            continue;
+                            break;
                         }
                         // the worker died / stalled / could not be written to
                         let detail = reap(kid.take().unwrap(), kill);
@@ -671,7 +744,16 @@ pub fn supervise(
                             g.cases += 1;
                             g.failures += 1;
                         }
+                        let next = if resumes < MAX_RESUMES { resume(i, &case_json, &f) } else { None };
                         on(i, Outcome::Failed(f));
+                        match next {
+                            Some(nj) => {
+                                case_json = nj;
+                                resumes += 1;
+                            }
+                            None => break,
+                        }
+                        }
                     }
                 }
                 if let Some(mut k) = kid {
